@@ -12,12 +12,19 @@ for d in sorted(glob.glob('/verif/seeded/*')):
     caught = m.get('caught', '?')
     rows.append(f"| `{name}` | {m['property']} | {m['needs_to_manifest']} | {res} | {'yes' if caught == 'yes' else 'only after the check was strengthened' if caught.startswith('after') else caught} |")
 n_first = sum(1 for r in rows if r.endswith('| yes |'))
+w2 = [r for r in rows if '-w2-' in r.split('|')[1]]
+w1 = [r for r in rows if '-w2-' not in r.split('|')[1]]
+w1_first = sum(1 for r in w1 if r.endswith('| yes |'))
+w2_first = sum(1 for r in w2 if r.endswith('| yes |'))
 block = f"""<!-- seeded-table-begin -->
 {len(rows)} mutants written by independent sub-agents (each saw only the property text and a scratch worktree) are
 kept under `/verif/seeded/<name>/` (patch.diff, the agent's demonstration, meta.json, confirm.txt).
 Each was confirmed by `tools/confirm_mutant.sh`: the repository's suite stays at 32 passed with the
 mutant, the demonstration fails with it and passes without it, and `./check <id> quick` is run with
-the patch applied to /repo (reverted straight afterwards). {n_first} were caught by the check as it stood;
+the patch applied to /repo (reverted straight afterwards). They came in two waves, two per property
+each time: {len(w1)} in the first wave ({w1_first} caught by the checks as they stood) and {len(w2)} in a second wave
+written against the strengthened checks and the repaired tree (`-w2-` in the name; {w2_first} caught as they stood),
+{n_first} of {len(rows)} in total;
 the others exposed a gap, the check was strengthened (what was added is in the `needs` column and in
 section 0), and they are caught now. No mutant is left uncaught. `tools/check_seeded.sh` re-validates
 all of them against the current /repo and the current checks (patch applies, suite green with it,
